@@ -300,5 +300,17 @@ def _p_lazy_plain():
     return s, [Inst(1, [('N', [('null',), ('int', 1), ('str', 'a')])]), Inst(2, [('N', [('ref', 1), ('int', 2), ('str', '#1 ( ;')])])]
 
 
+def _p_lazy_empty_inverse():
+    # the referenced instance's type declares an INVERSE attribute that nobody fills; the referrer is loaded first and has more
+    # attributes to read after the reference (the nested load moves the shared stream)
+    s = M.Schema('pr_lzinv', [], [M.Entity('b', attrs=[M.Attr('n', M.INT())], inverse=[M.Inverse('users', 'u', 'tgt', 'SET', 0, None)]),
+                                  M.Entity('u', attrs=[M.Attr('tgt', M.ENT('b')), M.Attr('k', M.INT())]),
+                                  M.Entity('a', attrs=[M.Attr('first', M.ENT('b')), M.Attr('s1', M.STR()), M.Attr('second', M.ENT('b'), True), M.Attr('s2', M.STR())])])
+    return s, [Inst(4, [('A', [('ref', 1), ('str', 'chapter'), ('ref', 2), ('str', '4.2')])]),
+               Inst(5, [('A', [('ref', 2), ('str', 'x'), ('null',), ('str', 'y')])]),
+               Inst(1, [('B', [('int', 1)])]), Inst(2, [('B', [('int', 2)])])]
+
+
+register('C10', Probe('referrer loaded before a referenced instance whose inverse attribute stays empty', _p_lazy_empty_inverse))
 register('C10', Probe('one token per line (newline between keyword and parenthesis)', _p_lazy_plain, variant='lines', masks=dict(variants=['lines'])))
 register('C10', Probe('comment on its own line between two instances', _p_lazy_plain, variant='cmt_between'))
